@@ -217,6 +217,28 @@ func c05Edits(src string) []c05Edit {
 			c05Edit{"undeclared variable", insertBefore(i, "print zq")},
 			c05Edit{"redeclaration in the same scope", insertBefore(i, "zq := 1", "zq := 2", "print zq")},
 			c05Edit{"type mismatch", insertBefore(i, "zq := 1", "zq = \"s\"", "print zq")},
+			// one type rule per position kind: unary and binary operands, conditions, index, slice bound,
+			// field, type assertion, range operand, argument, assignment to a variable / element / field
+			c05Edit{"type mismatch", insertBefore(i, "zq := \"s\"", "print -zq")},
+			c05Edit{"type mismatch", insertBefore(i, "zq := 1", "print !zq")},
+			c05Edit{"type mismatch", insertBefore(i, "zq := true", "print -zq")},
+			c05Edit{"type mismatch", insertBefore(i, "zq := [1]", "print !zq")},
+			c05Edit{"type mismatch", insertBefore(i, "zq:any", "print -zq")},
+			c05Edit{"type mismatch", insertBefore(i, "zq := 1", "print zq + \"s\"")},
+			c05Edit{"type mismatch", insertBefore(i, "zq := 1", "print (zq and true)")},
+			c05Edit{"type mismatch", insertBefore(i, "zq := \"s\"", "print zq * 2")},
+			c05Edit{"type mismatch", insertBefore(i, "zq := 1", "if zq", "    print 1", "end")},
+			c05Edit{"type mismatch", insertBefore(i, "zq := \"s\"", "while zq", "    print 1", "end")},
+			c05Edit{"type mismatch", insertBefore(i, "zq := [1 2]", "print zq[\"a\"]")},
+			c05Edit{"type mismatch", insertBefore(i, "zq := [1 2]", "print zq[true:]")},
+			c05Edit{"type mismatch", insertBefore(i, "zq := 1", "print zq[0]")},
+			c05Edit{"type mismatch", insertBefore(i, "zq := 1", "print zq.a")},
+			c05Edit{"type mismatch", insertBefore(i, "zq := 1", "print zq.(num)")},
+			c05Edit{"type mismatch", insertBefore(i, "zq := true", "for zi := range zq", "    print zi", "end")},
+			c05Edit{"type mismatch", insertBefore(i, "zq := \"s\"", "sleep zq")},
+			c05Edit{"type mismatch", insertBefore(i, "zq:num", "zq = [1]", "print zq")},
+			c05Edit{"type mismatch", insertBefore(i, "zq := [1]", "zq[0] = \"s\"", "print zq")},
+			c05Edit{"type mismatch", insertBefore(i, "zq := {a:1}", "zq.b = true", "print zq")},
 			c05Edit{"wrong number of arguments", insertBefore(i, "print (len 1 2)")},
 			c05Edit{"unknown function", insertBefore(i, "zqf 1")},
 			c05Edit{"stray text after a statement", insertBefore(i, "zq := 1 )", "print zq")},
@@ -427,7 +449,7 @@ func RunC05(d *Driver) *Report {
 	if berr != nil {
 		r.Disagree(Case{Stream: "build", Input: "go build", Real: berr.Error()})
 	}
-	r.Rule = fmt.Sprintf("termination analysis: alwaysTerminates of every statement of %d accepted programs (%d constructed function bodies with every combination of returning / non-returning if, else-if, else branches, loops, nesting, comments and blank lines; generated programs; documentation examples) compared with Model/Static.lean; the hypotheses of typed_function_returns_a_value (terminates, breaks only in loops, returns carry values) evaluated by the model on each of the %d accepted typed functions; and for each constructed body exactly one of {body alone, body + return} must be accepted, as the analysis says. Rule-breaking edits: %d programs = 2 rich valid programs x every line position x 17 edits of 11 kinds (unused / undeclared variable, redeclaration, type mismatch, argument count, unknown function, stray text after a statement and after end, break outside a loop, value returned from handler / procedure / top level) + 120 constructed programs for block scoping (use after the block, in a sibling branch of every if chain position, in another function or handler, before the declaration), event handler parameter lists (every wrong type and count for every event), redeclared functions / handlers / parameters, argument and return types + unreachable code after every return / break (directly and after comment + blank line) + missing return; each must be rejected with a located error, produce no platform call and no output through the library entry point, and (%d of them) exit non-zero with empty stdout and errors on stderr through the rebuilt `evy run`. Non-trivial = distinct program", nterm, nfn, len(bodies), nedit, nbin)
+	r.Rule = fmt.Sprintf("termination analysis: alwaysTerminates of every statement of %d accepted programs (%d constructed function bodies with every combination of returning / non-returning if, else-if, else branches, loops, nesting, comments and blank lines; generated programs; documentation examples) compared with Model/Static.lean; the hypotheses of typed_function_returns_a_value (terminates, breaks only in loops, returns carry values) evaluated by the model on each of the %d accepted typed functions; and for each constructed body exactly one of {body alone, body + return} must be accepted, as the analysis says. Rule-breaking edits: %d programs = 2 rich valid programs x every line position x 37 edits of 11 kinds (unused / undeclared variable, redeclaration, type mismatch, argument count, unknown function, stray text after a statement and after end, break outside a loop, value returned from handler / procedure / top level) + 120 constructed programs for block scoping (use after the block, in a sibling branch of every if chain position, in another function or handler, before the declaration), event handler parameter lists (every wrong type and count for every event), redeclared functions / handlers / parameters, argument and return types + unreachable code after every return / break (directly and after comment + blank line) + missing return; each must be rejected with a located error, produce no platform call and no output through the library entry point, and (%d of them) exit non-zero with empty stdout and errors on stderr through the rebuilt `evy run`. Non-trivial = distinct program", nterm, nfn, len(bodies), nedit, nbin)
 	r.DriverCalls = d.N
 	return r
 }
